@@ -335,7 +335,125 @@ def from_fp(f):
     return z3.fpToIEEEBV(f)
 
 
+# Second float semantics ("err"): a float is a fresh 32-bit name whose real value is the exact result of the operation
+# plus an explicit rounding-error term eta, |eta| <= 2^-24 |exact| + 2^-149 (round-to-nearest, no overflow: the
+# caller bounds the inputs so that no intermediate leaves the normal range). Every behaviour of the f32 code is one
+# choice of the etas, so unsat in this model implies unsat for the bit-exact semantics; sat is only a candidate.
+FLOAT = {'mode': 'fp'}
+REALS = {}        # name of a 32-bit z3 constant -> z3 real term
+ETA_CONS = []     # definitional bounds of the etas (always satisfiable; add them to every query)
+_FLC = [0]
+U24 = z3.RealVal(1) / z3.RealVal(1 << 24)
+TINY = z3.RealVal(1) / z3.RealVal(1 << 149)
+
+
+def float_reset(mode, form='abs'):
+    FLOAT['mode'] = mode
+    FLOAT['form'] = form
+    REALS.clear()
+    del ETA_CONS[:]
+
+
+def f32_fraction(bits):
+    from fractions import Fraction
+    sgn = -1 if bits >> 31 else 1
+    e = (bits >> 23) & 0xFF
+    m = bits & 0x7FFFFF
+    if e == 255:
+        raise Unsupported('NaN/inf constant in the rounding-error model')
+    if e == 0:
+        return sgn * Fraction(m, 1 << 149)
+    return sgn * Fraction((1 << 23) | m, 1 << 23) * (Fraction(2) ** (e - 127))
+
+
+def real_input(name):
+    """register a symbolic f32 input: returns (32-bit name for the MIR, real variable)"""
+    v = z3.BitVec(name, 32)
+    r = z3.Real(name + '_r')
+    REALS[name] = r
+    return v, r
+
+
+def realof(x):
+    if z3.is_bv_value(x):
+        fr = f32_fraction(x.as_long())
+        return z3.RealVal(fr)
+    if z3.is_const(x) and x.decl().name() in REALS:
+        return REALS[x.decl().name()]
+    if z3.is_app_of(x, z3.Z3_OP_ITE):
+        return z3.If(x.arg(0), realof(x.arg(1)), realof(x.arg(2)))
+    y = z3.simplify(x)
+    if not y.eq(x):
+        return realof(y)
+    raise Unsupported('float term outside the rounding-error model: %s' % str(x)[:80])
+
+
+def mkfloat(ex, exact, rounded=True, tiny=False):
+    """the f32 value of an operation whose exact real result is `exact`. Names are derived from the term itself: the
+    same operation on the same operands is the same float (and the same eta) on every path and in every summary."""
+    import hashlib
+    h = hashlib.md5((exact.sexpr() + ('|r' if rounded else '|e')).encode()).hexdigest()[:16]
+    name = 'fl!' + h
+    if name not in REALS:
+        if rounded and FLOAT.get('form') == 'rel':
+            # multiplicative form (keeps polynomials factorised, no case split on signs): exact (1 + d) [+ t]
+            dl = z3.Real('eta!' + h)
+            ETA_CONS.append(z3.And(dl <= U24, dl >= -U24))
+            REALS[name] = exact * (1 + dl)
+            if tiny:
+                tt = z3.Real('tiny!' + h)
+                ETA_CONS.append(z3.And(tt <= TINY, tt >= -TINY))
+                REALS[name] = REALS[name] + tt
+        elif rounded:
+            eta = z3.Real('eta!' + h)
+            ab = z3.If(exact >= 0, exact, -exact)
+            bound = U24 * ab + TINY if tiny else U24 * ab
+            ETA_CONS.append(z3.And(eta <= bound, eta >= -bound))
+            REALS[name] = exact + eta
+        else:
+            REALS[name] = exact
+    return z3.BitVec(name, 32)
+
+
+def float_err_unop(ex, op, x):
+    if z3.is_bv_value(z3.simplify(x)):
+        return None
+    r = realof(x)
+    if op == 'abs':
+        return mkfloat(ex, z3.If(r >= 0, r, -r), rounded=False)
+    if op == 'neg':
+        return mkfloat(ex, -r, rounded=False)
+    if op == 'sqrt':
+        import hashlib
+        q = z3.Real('sqrt!' + hashlib.md5(r.sexpr().encode()).hexdigest()[:16])
+        if not any(c.eq(z3.And(q >= 0, q * q == r)) for c in ETA_CONS):
+            ETA_CONS.append(z3.And(q >= 0, q * q == r))
+        return mkfloat(ex, q)
+    raise Unsupported('float op %s in the rounding-error model' % op)
+
+
 def float_binop(ex, op, x, y):
+    if FLOAT['mode'] == 'err' and x.size() == 32:
+        xs, ys = z3.simplify(x), z3.simplify(y)
+        if z3.is_bv_value(xs) and z3.is_bv_value(ys):
+            r = _float_binop_fp(ex, op, xs, ys)
+            return z3.simplify(r)
+        a, b = realof(xs), realof(ys)
+        if op == 'Add':
+            return mkfloat(ex, a + b)
+        if op == 'Sub':
+            return mkfloat(ex, a - b)
+        if op == 'Mul':
+            return mkfloat(ex, a * b, tiny=True)
+        if op == 'Div':
+            if z3.is_bv_value(ys) and f32_fraction(ys.as_long()) != 0:
+                return mkfloat(ex, a / b, tiny=True)
+            raise Unsupported('division by a symbolic float in the rounding-error model')
+        return {'Eq': a == b, 'Ne': a != b, 'Lt': a < b, 'Le': a <= b, 'Gt': a > b, 'Ge': a >= b}[op]
+    return _float_binop_fp(ex, op, x, y)
+
+
+def _float_binop_fp(ex, op, x, y):
     a, b = to_fp(x), to_fp(y)
     rm = z3.RNE()
     if op == 'Add':
@@ -528,6 +646,10 @@ def intrinsic(ex, fn, n, args, dest_ty):
         return z3.RotateLeft(x, z3.ZeroExt(x.size() - args[1].size(), args[1]) if args[1].size() < x.size() else z3.Extract(x.size() - 1, 0, args[1]))
     if iname == 'rotate_right':
         return z3.RotateRight(x, z3.ZeroExt(x.size() - args[1].size(), args[1]) if args[1].size() < x.size() else z3.Extract(x.size() - 1, 0, args[1]))
+    if FLOAT['mode'] == 'err' and iname in ('sqrtf32', 'fabsf32'):
+        r = float_err_unop(ex, 'sqrt' if iname == 'sqrtf32' else 'abs', x)
+        if r is not None:
+            return r
     if iname in ('sqrtf32', 'sqrtf64'):
         return from_fp(z3.fpSqrt(z3.RNE(), to_fp(x)))
     if iname in ('fabsf32', 'fabsf64'):
@@ -1199,6 +1321,10 @@ def _f32_model(ex, fn, args):
         return _from_bytes(True)(ex, fn, args)
     if n in ('to_bits', 'from_bits'):
         return x
+    if FLOAT['mode'] == 'err' and n in ('abs', 'sqrt') and x.size() == 32:
+        r = float_err_unop(ex, n, x)
+        if r is not None:
+            return r
     if n == 'abs':
         return x & BV((1 << (x.size() - 1)) - 1, x.size())
     if n == 'sqrt':
@@ -1210,7 +1336,7 @@ def _f32_model(ex, fn, args):
     if n == 'powi':
         c = concrete(args[1])
         if c == 2:
-            return from_fp(z3.fpMul(z3.RNE(), to_fp(x), to_fp(x)))
+            return float_binop(ex, 'Mul', x, x)
     if n == 'total_cmp':
         raise Unsupported('f32::total_cmp')
     raise Unsupported('f32 method %s' % n)
